@@ -26,7 +26,7 @@ RULE = (
 )
 BOUNDS = {"rows": "12-400", "features": "1-3"}
 ASSUMPTIONS = ["exact target rates (integer counts / integer-valued targets) are used to decide rate order; ties are free"]
-BUDGET = {"quick": 1200, "thorough": 60000}
+BUDGET = {"quick": 1600, "thorough": 60000}
 DEADLINE_S = {"quick": 200, "thorough": 3300}
 CLASSES = ("Discretizer", "QuantitativeDiscretizer", "QualitativeDiscretizer") + CARVERS + ("BinaryCarver", "ContinuousCarver")
 STR_NAN, STR_DEFAULT = "__NAN__", "__OTHER__"
